@@ -546,10 +546,10 @@ func (ex *Exec) witnessOf(st *State, n string, p Ptr, withBase bool) []WitnessVa
 		case Bool:
 			out = append(out, WitnessVar{Name: name, Kind: "bool", Term: x.T})
 		case Str:
-			out = append(out, WitnessVar{Name: name, Kind: "str", Term: x.T})
+			out = append(out, WitnessVar{Name: name, Kind: "ostr", Term: x.T})
 		case Slice:
 			if mustSort(x.Elem) == "Str" {
-				out = append(out, WitnessVar{Name: name, Kind: "strs", Term: x.Arr, Len: x.Len})
+				out = append(out, WitnessVar{Name: name, Kind: "ostrs", Term: x.Arr, Len: x.Len})
 			}
 		}
 	}
